@@ -80,6 +80,23 @@ theorem C06_emphasis_disjoint_or_nested (s : Str) (fn : Footnotes.Table) (ms : L
     · exact Or.inl h1
     · exact Or.inr (Or.inr (Or.inr h1))
 
+/-- **Delimiter characters (partial).**  The target clause "the characters of both delimiters of an
+    emphasis match are all equal to its `delimiter` attribute, which is `*` or `_`" is false in
+    general (`delimiter_not_star`, `closing_delimiter_eats_backslash` below).  Hypothesis added:
+    the text contains no backslash.  Both ways the clause fails go through `escaped`: an escaped
+    character lets `in_image` survive up to a `[`, and a backslash that ends the text is taken
+    into the pending delimiter run.  Without a backslash neither can happen, and the clause holds
+    for every text and every table of definitions. -/
+theorem C06_emphasis_delimiters_partial (s : Str) (fn : Footnotes.Table) (hbs : '\\' ∉ s)
+    (ms : List CoreM) (codes : List InlineScan.CodeM) (h : findCoreTokens s fn = .ok (ms, codes)) :
+    ∀ m ∈ ms, IsEmph m →
+      (m.delimiter = '*' ∨ m.delimiter = '_') ∧
+      (∀ k, m.start ≤ k → k < m.ts → s[k]? = some m.delimiter) ∧
+      (∀ k, m.te ≤ k → k < m.stop → s[k]? = some m.delimiter) := by
+  intro m hm he
+  have hc := emphasis_chars s fn hbs ms codes h m hm he
+  exact ⟨hc.star, hc.opening, hc.closing⟩
+
 /-! Non-vacuity: the kernel evaluates the model on concrete texts. -/
 
 /-- the input that raised `IndexError` in the pinned code before `Delimiter.type` and `number`
@@ -119,6 +136,13 @@ example : ∀ m ∈ [({ start := 1, stop := 6, kind := .strong, ts := 3, te := 4
       ((m.kind = .strong ∧ m.ts - m.start = 2) ∨ (m.kind = .emphasis ∧ m.ts - m.start = 1)) ∧
       "***a** b*".toList[m.start]? = some m.delimiter :=
   C06_emphasis_wellformed "***a** b*".toList [] _ [] (by decide +kernel)
+
+example : ∀ m ∈ [({ start := 1, stop := 6, kind := .strong, ts := 3, te := 4, dest := [], title := [], delimiter := '*' } : CoreM),
+                  { start := 0, stop := 9, kind := .emphasis, ts := 1, te := 8, dest := [], title := [], delimiter := '*' }],
+    IsEmph m → (m.delimiter = '*' ∨ m.delimiter = '_') ∧
+      (∀ k, m.start ≤ k → k < m.ts → "***a** b*".toList[k]? = some m.delimiter) ∧
+      (∀ k, m.te ≤ k → k < m.stop → "***a** b*".toList[k]? = some m.delimiter) :=
+  C06_emphasis_delimiters_partial "***a** b*".toList [] (by decide) _ [] (by decide +kernel)
 
 /-! ### Counterexamples to "the delimiter characters are all `delimiter` ∈ {`*`, `_`}"
 
